@@ -127,8 +127,9 @@ def _cls_shared_twice():
 def _cls_inherit2():
     class Base(Object, required=["k"], minProperties=1):
         a = Property(Integer(), required=True)
+        a_b = Property(String(default="z"), source="a b")  # a renamed property, inherited below
 
-    class Child(Base, maxProperties=3):
+    class Child(Base, maxProperties=4):
         b = Property(String(), required=True)
 
     return Child
